@@ -22,7 +22,11 @@ var hashSizes = map[crypto.Hash]int{crypto.SHA224: 28, crypto.SHA256: 32, crypto
 // verifyTuple draws a verification instance.
 func verifyTuple(rng *gen.Rng, i int) sigTuple {
 	specials := specialRPoints()
-	switch i % 12 {
+	switch i % 14 {
+	case 12:
+		return steeredU2Tuple(rng)
+	case 13:
+		return wrapRecoverTuple(rng)
 	case 0, 1:
 		t := honestTuple(rng, false)
 		t.S, t.V = oracle.LowS(t.S, t.V)
@@ -120,7 +124,7 @@ func verifyTuple(rng *gen.Rng, i int) sigTuple {
 		t.Class = "digest-extended," + t.Class
 		return t
 	}
-	// i%12 == 11: a valid signature with a tiny s (s + n still fits in 32
+	// i%14 == 11: a valid signature with a tiny s (s + n still fits in 32
 	// bytes, so a reducing byte-level parser would accept the alias s + n):
 	// choose k and s, solve e = s*k - r*d.
 	d, dc := keyValue(rng)
@@ -167,10 +171,81 @@ func verifyTuple(rng *gen.Rng, i int) sigTuple {
 	}
 }
 
+// steeredU2Tuple builds a VALID signature whose u2 = r/s - the scalar the
+// verifier feeds to the variable-base (GLV) multiply - lies in one of the GLV
+// decomposition's rare windows: choose u1, u2, set R = (u1 + u2 d)G,
+// r = x(R) mod n, s = r/u2, e = u1 s.
+func steeredU2Tuple(rng *gen.Rng) sigTuple {
+	d, dc := keyValue(rng)
+	lam := oracle.Lambda
+	if rng.Bool() {
+		lam = oracle.MulM(lam, lam, bigN)
+	}
+	glvOnce.Do(func() {
+		glvByLambda = map[string]*glvConsts{}
+		l2 := oracle.MulM(oracle.Lambda, oracle.Lambda, bigN)
+		glvByLambda[oracle.Lambda.String()] = deriveGLV(oracle.Lambda)
+		glvByLambda[l2.String()] = deriveGLV(l2)
+	})
+	for {
+		u2, cl := glvScalar(rng, glvByLambda[lam.String()], lam)
+		u1 := rng.Below(bigN)
+		if u2.Sign() == 0 {
+			continue
+		}
+		R := oracle.MulG(oracle.AddM(u1, oracle.MulM(u2, d, bigN), bigN))
+		if R.Inf {
+			continue
+		}
+		rr := oracle.Mod(R.X, bigN)
+		if rr.Sign() == 0 {
+			continue
+		}
+		sv := oracle.MulM(rr, oracle.InvFast(u2, bigN), bigN)
+		e := oracle.MulM(u1, sv, bigN)
+		v := int(R.Y.Bit(0))
+		if R.X.Cmp(bigN) >= 0 {
+			v |= 2
+		}
+		return sigTuple{Q: oracle.MulG(d), D: d, Digest: b32(e), R: rr, S: sv, V: v, Class: "steered-u2," + cl + "," + dc}
+	}
+}
+
+// wrapRecoverTuple builds (Q, e, r, s) around a point R' with r = x(R') + p - n:
+// with bit 1 of the recovery id set the candidate x-coordinate r + n equals
+// p + x(R'), which is NOT a field element; an implementation that lets it wrap
+// to x(R') recovers Q and accepts the recoverable signature.  The tuple itself
+// does not satisfy the predicate (x(R') mod n != r).
+func wrapRecoverTuple(rng *gen.Rng) sigTuple {
+	pmn := new(big.Int).Sub(bigP, bigN)
+	for {
+		k := rng.Below(bigN)
+		if k.Sign() == 0 {
+			continue
+		}
+		Rp := oracle.MulG(k)
+		rr := new(big.Int).Add(Rp.X, pmn)
+		if rr.Cmp(bigN) >= 0 {
+			continue
+		}
+		sv := rng.Below(bigN)
+		if sv.Sign() == 0 {
+			continue
+		}
+		dig, gc := digestValue(rng, false)
+		e, _ := oracle.DigestToE(dig)
+		q := oracle.Mul(oracle.InvFast(rr, bigN), oracle.Sub(oracle.Mul(sv, Rp), oracle.MulG(e)))
+		if q.Inf {
+			continue
+		}
+		return sigTuple{Q: q, Digest: dig, R: rr, S: sv, V: 2 | int(Rp.Y.Bit(0)), Class: "wrap-recover," + gc}
+	}
+}
+
 func runC07(r *mon.Run) {
 	for _, c := range []string{"c07:accept", "c07:reject", "c07:class:high-s", "c07:class:chosen-R:x(R)>=n", "c07:class:chosen-R:x(R)<p-n", "c07:class:R=infinity",
 		"c07:class:e=0", "c07:class:rs-boundary-value", "c07:class:digest-extended", "c07:stage:range", "c07:stage:infinity", "c07:stage:x-compare",
-		"c07:stage:short-digest", "c07:stage:malleability", "c07:recoverable:accept", "c07:recoverable:wrong-id", "c07:recoverable:malleability-reject", "c07:class:tiny-s", "c07:alias:s+n", "c07:alias:r+n", "c07:btc:accept", "c07:btc:envelope-reject"} {
+		"c07:stage:short-digest", "c07:stage:malleability", "c07:recoverable:accept", "c07:recoverable:wrong-id", "c07:recoverable:malleability-reject", "c07:class:tiny-s", "c07:class:steered-u2", "c07:class:wrap-recover", "c07:alias:s+n", "c07:alias:r+n", "c07:btc:accept", "c07:btc:envelope-reject"} {
 		r.Require(c)
 	}
 	if !hk.HaveSecec {
